@@ -20,8 +20,8 @@ import (
 // must fail and which must complete.
 
 var c27ServerScen = []string{"trusted", "untrusted", "expired", "notyet", "wrongname", "wrongkey", "badsig", "nointer", "ip_ok", "ip_mismatch", "expired_root", "root_still_valid",
-	"pathlen", "under_leaf", "resume_ok", "resume_expired", "cn_without_dns_san", "odd_eku"}
-var c27ClientScen = []string{"none", "trusted", "untrusted", "expired", "wrongkey", "badsig", "pathlen", "under_leaf", "odd_eku"}
+	"pathlen", "under_leaf", "resume_ok", "resume_expired", "cn_without_dns_san", "odd_eku", "forged_leaf", "forged_inter"}
+var c27ClientScen = []string{"none", "trusted", "untrusted", "expired", "wrongkey", "badsig", "pathlen", "under_leaf", "odd_eku", "forged_leaf"}
 
 type c27Scenario struct {
 	Seed       uint64 `json:"seed"`
@@ -36,17 +36,28 @@ type c27Scenario struct {
 	Tape       []int  `json:"tape,omitempty"`
 }
 
-// byzSigner corrupts every signature it produces (one flipped bit).
+// byzSigner corrupts every signature it produces: one flipped bit, or (mode) another length — the last byte cut off,
+// a byte appended, or no signature bytes at all.
 type byzSigner struct {
 	inner crypto.Signer
 	fired *int
+	mode  int // 0 flip, 1 truncate by one, 2 extend by one, 3 empty
 }
 
 func (b byzSigner) Public() crypto.PublicKey { return b.inner.Public() }
 func (b byzSigner) Sign(r io.Reader, digest []byte, opts crypto.SignerOpts) ([]byte, error) {
 	sig, err := b.inner.Sign(r, digest, opts)
 	if err == nil && len(sig) > 0 {
-		sig[len(sig)/2] ^= 0x04
+		switch b.mode {
+		case 1:
+			sig = sig[:len(sig)-1]
+		case 2:
+			sig = append(sig, 0x01)
+		case 3:
+			sig = sig[:0]
+		default:
+			sig[len(sig)/2] ^= 0x04
+		}
 		*b.fired++
 	}
 	return sig, err
@@ -119,9 +130,9 @@ func genC27(seed uint64, tier string) any {
 		break
 	}
 	sc.Key = keyForSuite(r, suiteByID[sc.Suite], sc.Version)
-	sc.ServerScen = c27ServerScen[r.Pick([]int{9, 1, 1, 1, 1, 2, 2, 1, 1, 1, 1, 1, 1, 1, 1, 2, 1, 1})]
+	sc.ServerScen = c27ServerScen[r.Pick([]int{9, 1, 1, 1, 1, 2, 2, 1, 1, 1, 1, 1, 1, 1, 1, 2, 1, 1, 1, 1})]
 	sc.AuthMode = r.Intn(5)
-	sc.ClientScen = c27ClientScen[r.Pick([]int{2, 3, 1, 1, 2, 2, 1, 1, 1})]
+	sc.ClientScen = c27ClientScen[r.Pick([]int{2, 3, 1, 1, 2, 2, 1, 1, 1, 1})]
 	sc.ClientKey = []string{"rsa", "p256", "p384", "ed"}[r.Pick([]int{3, 3, 1, 2})]
 	if sc.ClientKey == "ed" && sc.Version < vTLS12 {
 		sc.ClientKey = "p256"
@@ -171,7 +182,7 @@ func c27Table(sc *c27Scenario) c27Expect {
 		if sc.ClientScen == "wrongkey" || sc.ClientScen == "badsig" {
 			e.ServerMustFail = true
 			e.Reason = "client does not prove possession (" + sc.ClientScen + ")"
-		} else if (sc.ClientScen == "untrusted" || sc.ClientScen == "expired" || sc.ClientScen == "pathlen" || sc.ClientScen == "under_leaf" || sc.ClientScen == "odd_eku") &&
+		} else if (sc.ClientScen == "untrusted" || sc.ClientScen == "expired" || sc.ClientScen == "pathlen" || sc.ClientScen == "under_leaf" || sc.ClientScen == "odd_eku" || sc.ClientScen == "forged_leaf") &&
 			(sc.AuthMode == int(tls.VerifyClientCertIfGiven) || sc.AuthMode == int(tls.RequireAndVerifyClientCert)) {
 			e.ServerMustFail = true
 			e.Reason = "client chain does not verify (" + sc.ClientScen + ")"
@@ -226,9 +237,9 @@ func execC27(t *testing.T, scAny any, keepLog bool) *Outcome {
 				c := tlsCert(p.Server[kind], true, keyOfKind[kind])
 				inner := c.PrivateKey.(crypto.Signer)
 				if _, ok := inner.(crypto.Decrypter); ok {
-					c.PrivateKey = byzDecrypter{byzSigner{inner, &byzFired}}
+					c.PrivateKey = byzDecrypter{byzSigner{inner, &byzFired, int(sc.Seed>>3) % 4}}
 				} else {
-					c.PrivateKey = byzSigner{inner, &byzFired}
+					c.PrivateKey = byzSigner{inner, &byzFired, int(sc.Seed>>3) % 4}
 				}
 				scfg.Certificates = []tls.Certificate{c}
 			}
@@ -239,6 +250,12 @@ func execC27(t *testing.T, scAny any, keepLog bool) *Outcome {
 			// the name is in the subject's common name only; the subjectAltName extension is present (an IP address) and
 			// therefore authoritative (RFC 6125 6.4.4)
 			scfg.Certificates = []tls.Certificate{tlsCert(p.ServerCNOnly[kind], true, keyOfKind[kind])}
+		case "forged_leaf":
+			// the leaf names a trusted ECDSA CA as its issuer; its signature is well-formed but made with another key
+			scfg.Certificates = []tls.Certificate{{Certificate: [][]byte{p.ServerForgedLeaf[kind].DER, p.InterEC.DER}, PrivateKey: kit.TLSKey(keyOfKind[kind])}}
+		case "forged_inter":
+			// the intermediate names the trusted (ECDSA) root as its issuer but was signed with another key
+			scfg.Certificates = []tls.Certificate{{Certificate: [][]byte{p.ServerUnderForged[kind].DER, p.ForgedInter.DER}, PrivateKey: kit.TLSKey(keyOfKind[kind])}}
 		case "odd_eku":
 			// extended key usage present and without serverAuth / anyExtendedKeyUsage (one private OID)
 			scfg.Certificates = []tls.Certificate{tlsCert(p.ServerOddEKU[kind], true, keyOfKind[kind])}
@@ -289,6 +306,8 @@ func execC27(t *testing.T, scAny any, keepLog bool) *Outcome {
 		case "odd_eku":
 			c := tlsCert(p.ClientOddEKU[ck], true, clientKeyOfKind[ck])
 			ccert = &c
+		case "forged_leaf":
+			ccert = &tls.Certificate{Certificate: [][]byte{p.ClientForgedLeaf[ck].DER, p.InterEC.DER}, PrivateKey: kit.TLSKey(clientKeyOfKind[ck])}
 		case "under_leaf":
 			ccert = &tls.Certificate{Certificate: [][]byte{p.ClientUnderLeaf[ck].DER, p.Server["p256"].DER, p.Inter.DER}, PrivateKey: kit.TLSKey(clientKeyOfKind[ck])}
 		case "wrongkey":
@@ -297,7 +316,7 @@ func execC27(t *testing.T, scAny any, keepLog bool) *Outcome {
 			o.count("fault.wrong_key_client", 1)
 		case "badsig":
 			c := tlsCert(p.Client[ck], true, clientKeyOfKind[ck])
-			c.PrivateKey = byzSigner{c.PrivateKey.(crypto.Signer), &byzFired}
+			c.PrivateKey = byzSigner{c.PrivateKey.(crypto.Signer), &byzFired, int(sc.Seed>>5) % 4}
 			ccert = &c
 		}
 		certRequested := false
